@@ -178,10 +178,15 @@ fn classify(fam: &Family, payloads: &[Vec<u8>], got: &[u8], sport: Option<u16>, 
         res.bad.push(("header-of-other-datagram", format!("bytes of datagram {} delivered under destination {:?} (its fragments were sent to {:?})", i, hdr_dst, fam.dgs[*i].dst)));
         return;
     }
-    let Some((i, want)) = cands.first() else {
+    if cands.is_empty() {
         res.bad.push(("wrong-endpoint", format!("datagram from unknown source port {:?}, {} bytes", sport, got.len())));
         return;
-    };
+    }
+    // reference for the diagnosis: the candidate sharing the longest prefix with what was
+    // delivered (first one on ties)
+    let lcp = |d: &[u8]| (0..got.len().min(d.len())).take_while(|&k| got[k] == d[k]).count();
+    let best = cands.iter().map(|(_, d)| lcp(d)).max().unwrap_or(0);
+    let (i, want) = cands.iter().find(|(_, d)| lcp(d) == best).unwrap();
     // spliced: every byte comes from one of the candidates at the same position, but not all from one
     if cands.len() > 1 && cands.iter().all(|(_, d)| d.len() == got.len()) && (0..got.len()).all(|k| cands.iter().any(|(_, d)| d[k] == got[k])) {
         let from: Vec<usize> = (0..got.len()).map(|k| cands.iter().find(|(_, d)| d[k] == got[k]).unwrap().0).collect();
@@ -781,8 +786,12 @@ pub(crate) fn replay(r: &Value) -> i32 {
 pub(crate) struct ExpiryCase {
     pub raw: bool,
     pub zero_cksum: bool,
-    /// fragments per datagram: n-1 pieces of 8 bytes + 5
+    /// fragments of X: n-1 pieces of 8 bytes + `x_last`
     pub n: usize,
+    pub x_last: usize,
+    /// fragments of Y: ny-1 pieces of 8 bytes + `y_last` (same layout as X, or another total size)
+    pub ny: usize,
+    pub y_last: usize,
     /// fragment indices of X that arrive, in order (non-empty proper subset)
     pub x_order: Vec<u8>,
     pub gap_ms: i64,
@@ -793,27 +802,45 @@ pub(crate) struct ExpiryCase {
 
 impl ExpiryCase {
     fn family(&self) -> Family {
-        let (total, cuts) = cuts_of(self.n, 8, 5);
-        let x = Dg { id: 0x3300, len: total, salt: 7, cuts: cuts.clone(), dst: OUR_IP, sport: Some(RX_SPORT_BASE), zero_cksum: self.zero_cksum, opts: vec![] };
-        let y = Dg { id: if self.same_id { 0x3300 } else { 0x3301 }, len: total, salt: 9, cuts, dst: OUR_IP, sport: Some(RX_SPORT_BASE), zero_cksum: self.zero_cksum, opts: vec![] };
+        let (total, cuts) = cuts_of(self.n, 8, self.x_last);
+        let (ytotal, ycuts) = cuts_of(self.ny, 8, self.y_last);
+        let x = Dg { id: 0x3300, len: total, salt: 7, cuts, dst: OUR_IP, sport: Some(RX_SPORT_BASE), zero_cksum: self.zero_cksum, opts: vec![] };
+        let y = Dg { id: if self.same_id { 0x3300 } else { 0x3301 }, len: ytotal, salt: 9, cuts: ycuts, dst: OUR_IP, sport: Some(RX_SPORT_BASE), zero_cksum: self.zero_cksum, opts: vec![] };
         Family { class: "expired-then-reused", raw: self.raw, eth: false, dgs: vec![x, y], items: vec![], label: self.label() }
     }
     fn label(&self) -> String {
         format!(
-            "expired-then-reused {} n={} X arrives {:?}, +{} ms, Y ({} id) arrives {:?}",
+            "expired-then-reused {} X={}x8+{} ({}B) arrives {:?}, +{} ms, Y={}x8+{} ({}B, {} id) arrives {:?}",
             if self.raw { "raw".to_string() } else { format!("udp(cksum {})", if self.zero_cksum { "0" } else { "valid" }) },
-            self.n,
+            self.n - 1,
+            self.x_last,
+            8 * (self.n - 1) + self.x_last,
             self.x_order,
             self.gap_ms,
+            self.ny - 1,
+            self.y_last,
+            8 * (self.ny - 1) + self.y_last,
             if self.same_id { "same" } else { "other" },
             self.y_order
         )
     }
     fn y_complete(&self) -> bool {
-        self.y_order.len() == self.n
+        self.y_order.len() == self.ny
+    }
+    fn shape(&self) -> &'static str {
+        let (x, y) = (8 * (self.n - 1) + self.x_last, 8 * (self.ny - 1) + self.y_last);
+        if (self.n, self.x_last) == (self.ny, self.y_last) {
+            "Y same size and cuts as X"
+        } else if y < x {
+            "Y smaller than X"
+        } else if x % 8 == 0 && y > x {
+            "Y larger, a fragment boundary of Y at |X|"
+        } else {
+            "Y larger than X"
+        }
     }
     fn to_json(&self) -> Value {
-        json!({"part": "rx", "class": "expired-then-reused", "raw": self.raw, "zero_cksum": self.zero_cksum, "n": self.n, "x_order": self.x_order,
+        json!({"part": "rx", "class": "expired-then-reused", "raw": self.raw, "zero_cksum": self.zero_cksum, "n": self.n, "x_last": self.x_last, "ny": self.ny, "y_last": self.y_last, "x_order": self.x_order,
             "gap_ms": self.gap_ms, "same_id": self.same_id, "y_order": self.y_order, "label": self.label()})
     }
     fn from_json(r: &Value) -> Option<ExpiryCase> {
@@ -822,6 +849,9 @@ impl ExpiryCase {
             raw: r["raw"].as_bool()?,
             zero_cksum: r["zero_cksum"].as_bool()?,
             n: r["n"].as_u64()? as usize,
+            x_last: r["x_last"].as_u64().unwrap_or(5) as usize,
+            ny: r["ny"].as_u64().unwrap_or(r["n"].as_u64()?) as usize,
+            y_last: r["y_last"].as_u64().unwrap_or(5) as usize,
             x_order: arr(&r["x_order"])?,
             gap_ms: r["gap_ms"].as_i64()?,
             same_id: r["same_id"].as_bool()?,
@@ -897,11 +927,11 @@ pub(crate) fn judge_expiry(c: &ExpiryCase, res: &RxResult, timeout_ms: i64) -> (
     }
     // range limit for Y alone (always satisfied for n <= 2*limit, kept general)
     let limit = smoltcp::config::ASSEMBLER_MAX_SEGMENT_COUNT;
-    let mut present = vec![false; c.n];
+    let mut present = vec![false; c.ny];
     let mut within_limit = true;
     for &i in &c.y_order {
         present[i as usize] = true;
-        let runs = (0..c.n).filter(|&k| present[k] && (k == 0 || !present[k - 1])).count();
+        let runs = (0..c.ny).filter(|&k| present[k] && (k == 0 || !present[k - 1])).count();
         within_limit &= runs <= limit;
     }
     let expired = c.gap_ms > timeout_ms;
@@ -951,20 +981,36 @@ pub(crate) fn expiry_cases(tier: Tier) -> Vec<ExpiryCase> {
                     x_orders.extend(all_orders(&set));
                 }
             }
-            let full: Vec<u8> = (0..n as u8).collect();
-            for (same_id, gap) in [(false, timeout_ms - 1000), (false, timeout_ms), (false, timeout_ms + 1000), (true, timeout_ms + 1000)] {
-                for xo in &x_orders {
-                    // Y complete, every order
-                    for yo in all_orders(&full) {
-                        v.push(ExpiryCase { raw, zero_cksum: zero, n, x_order: xo.clone(), gap_ms: gap, same_id, y_order: yo });
-                    }
-                    // Y without a fragment that X did deliver, every order of the rest
-                    let mut missing = xo.clone();
-                    missing.sort();
-                    for m in missing {
-                        let rest: Vec<u8> = full.iter().copied().filter(|&i| i != m).collect();
-                        for yo in all_orders(&rest) {
-                            v.push(ExpiryCase { raw, zero_cksum: zero, n, x_order: xo.clone(), gap_ms: gap, same_id, y_order: yo });
+            // (x_last, ny, y_last, Y-without-one-fragment for every index?)
+            //  * same size and cuts (Y lacking a fragment X had delivered)
+            //  * Y smaller (one fragment less), Y larger (longer tail; thorough: one fragment more)
+            //  * X a multiple of 8 and Y one fragment longer: a fragment boundary of Y falls on |X|
+            let mut layouts: Vec<(usize, usize, usize, bool)> = vec![(5, n, 5, false), (5, n - 1, 5, true), (5, n, 8, true), (8, n + 1, 5, true)];
+            if tier == Tier::Thorough {
+                layouts.push((5, n + 1, 5, true));
+                layouts.push((5, n, 3, true));
+            }
+            for (x_last, ny, y_last, every_missing) in layouts {
+                let full: Vec<u8> = (0..ny as u8).collect();
+                for (same_id, gap) in [(false, timeout_ms - 1000), (false, timeout_ms), (false, timeout_ms + 1000), (true, timeout_ms + 1000)] {
+                    for xo in &x_orders {
+                        let mk = |yo: Vec<u8>| ExpiryCase { raw, zero_cksum: zero, n, x_last, ny, y_last, x_order: xo.clone(), gap_ms: gap, same_id, y_order: yo };
+                        // Y complete, every order
+                        for yo in all_orders(&full) {
+                            v.push(mk(yo));
+                        }
+                        // Y without one fragment, every order of the rest: a fragment X had
+                        // delivered (same layout) / any fragment (other layouts)
+                        let mut missing: Vec<u8> = if every_missing { full.clone() } else { xo.clone() };
+                        missing.sort();
+                        for m in missing {
+                            let rest: Vec<u8> = full.iter().copied().filter(|&i| i != m).collect();
+                            if rest.is_empty() {
+                                continue;
+                            }
+                            for yo in all_orders(&rest) {
+                                v.push(mk(yo));
+                            }
                         }
                     }
                 }
@@ -1007,6 +1053,7 @@ pub(crate) fn run_expiry(rep: &mut Report, tier: Tier) -> ExpirySummary {
     let mut frames = 0u64;
     let mut out: BTreeMap<&'static str, u64> = BTreeMap::new();
     let mut per_gap: BTreeMap<String, u64> = BTreeMap::new();
+    let mut per_shape: BTreeMap<&'static str, u64> = BTreeMap::new();
     let mut timeout_seen = 0i64;
     for (c, r) in cases.iter().zip(results.iter()) {
         frames += (c.x_order.len() + c.y_order.len()) as u64;
@@ -1022,6 +1069,7 @@ pub(crate) fn run_expiry(rep: &mut Report, tier: Tier) -> ExpirySummary {
         };
         *out.entry(k).or_insert(0) += 1;
         *per_gap.entry(format!("{} id, +{} ms", if c.same_id { "same" } else { "other" }, c.gap_ms)).or_insert(0) += 1;
+        *per_shape.entry(c.shape()).or_insert(0) += 1;
         if let Some(m) = &r.machinery {
             if rep.machinery_errors.len() < 5 {
                 rep.machinery_errors.push(format!("rx expiry {}: {}", c.label(), m));
@@ -1031,7 +1079,7 @@ pub(crate) fn run_expiry(rep: &mut Report, tier: Tier) -> ExpirySummary {
             rep.violation(v.sig.clone(), format!("[rx] {}", v.detail), c.to_json());
         }
     }
-    if let Some(i) = cases.iter().position(|c| c.n == 4 && c.x_order == [0, 2] && c.gap_ms > 60_000 && !c.same_id && c.y_order == [0, 1, 3]) {
+    if let Some(i) = cases.iter().position(|c| c.n == 4 && c.ny == 4 && c.y_last == 5 && c.x_order == [0, 2] && c.gap_ms > 60_000 && !c.same_id && c.y_order == [0, 1, 3]) {
         rep.samples.push(json!({"part": "rx", "class": "expired-then-reused", "case": cases[i].label(), "Y_delivered": results[i].y, "demanded": results[i].demanded}));
     }
     let y_ok = *out.get("Y_complete/demanded/delivered_exact").unwrap_or(&0);
@@ -1039,7 +1087,7 @@ pub(crate) fn run_expiry(rep: &mut Report, tier: Tier) -> ExpirySummary {
         cases: cases.len() as u64,
         frames,
         y_complete_delivered: y_ok,
-        evidence: json!({"what": "X (n-1 pieces of 8 bytes + 5) arrives partially at t=0: every non-empty proper subset of <= 3 fragments in every order; the clock jumps; Y (same size and cuts, other salt) arrives: every permutation of all fragments, and every permutation of all-but-one for each fragment X had delivered",
+        evidence: json!({"what": "X (n-1 pieces of 8 bytes + 5) arrives partially at t=0: every non-empty proper subset of <= 3 fragments in every order; the clock jumps; Y (other salt; same size and cuts as X, or smaller, or larger, or larger with a fragment boundary exactly at |X|) arrives: every permutation of all fragments, and every permutation of all-but-one (same layout: for each fragment X had delivered; other layouts: for every fragment)", "cases_per_shape": per_shape,
             "fragments_per_datagram": if tier == Tier::Thorough { json!([3, 4, 5]) } else { json!([3, 4]) },
             "socket_variants": ["udp checksum 0", "udp checksum valid", "raw"],
             "reassembly_timeout_ms_reported_by_interface": timeout_seen,
